@@ -11,11 +11,15 @@ import (
 	"encoding/hex"
 	"fmt"
 	"os"
+	"reflect"
+	"runtime"
 	"runtime/debug"
 	"sort"
+	"strings"
 	"sync"
 	"testing"
 	"time"
+	"unsafe"
 
 	"github.com/alephium/wormhole-fork/node/pkg/common"
 	"github.com/alephium/wormhole-fork/node/pkg/db"
@@ -49,8 +53,12 @@ type phRun struct {
 	sc    int
 	p     *Processor
 	sendC chan []byte
-	obsvC chan *gossipv1.SignedObservation
-	reqC  chan *gossipv1.ObservationRequest
+	// what drain reads: sendC itself, or - "SendBusy" scenarios - the far side of a p2p loop that is never parked in its
+	// receive (it polls): a blocking send gets through within a poll interval, a non-blocking one never does
+	sendOut chan []byte
+	fwdMu   sync.Mutex
+	obsvC   chan *gossipv1.SignedObservation
+	reqC    chan *gossipv1.ObservationRequest
 
 	digests map[string]string // digest hex -> abstract name
 	ids     map[string]string // message id string -> abstract name
@@ -69,14 +77,16 @@ type phRun struct {
 	runDead   chan string // receives the panic text (or "returned") when Run ends
 	logs      *observer.ObservedLogs
 	seenOwn   int
-	reqFree int                    // free slots of the outbound re-observation request queue before the current step
-	store   *db.Database
-	stopRun func()
-	deadMu  sync.Mutex
-	deadMsg string
-	down    bool                   // the store was closed by a StoreDown step
-	lastDB  map[string]interface{} // last projection of the store while it answered
-	ownDB   *db.Database
+	reqFree   int // free slots of the outbound re-observation request queue before the current step
+	store     *db.Database
+	stopRun   func()
+	deadMu    sync.Mutex
+	deadMsg   string
+	down      bool                   // the store was closed by a StoreDown step
+	tickerSet bool                   // Run's cleanup ticker was replaced by one the harness controls
+	aborted   bool                   // a handler call / the Run loop of this scenario hangs: nothing more can be executed on it
+	lastDB    map[string]interface{} // last projection of the store while it answered
+	ownDB     *db.Database
 }
 
 func phHash(parts ...interface{}) [32]byte {
@@ -247,11 +257,13 @@ func (r *phRun) projState(out []interface{}, panicked string) map[string]interfa
 
 // drain collects everything the step emitted and classifies it.
 func (r *phRun) drain(signStep bool) []interface{} {
+	r.fwdMu.Lock() // a message the busy-p2p forwarder has taken but not yet passed on
+	r.fwdMu.Unlock()
 	out := []interface{}{}
 	nObs := 0
 	for {
 		select {
-		case b := <-r.sendC:
+		case b := <-r.sendOut:
 			var g gossipv1.GossipMessage
 			if err := proto.Unmarshal(b, &g); err != nil {
 				out = append(out, map[string]interface{}{"kind": "garbage"})
@@ -454,18 +466,30 @@ func (r *phRun) bodyFor(a map[string]interface{}) *vhVAA {
 
 // step executes one abstract step on the real handlers and returns the emitted trace state.
 func (r *phRun) step(st vhStep) {
+	if r.aborted {
+		return
+	}
 	p := r.p
 	ctx := r.w.ctx
 	signStep := false
 	var call func()
 	var send func() bool // run-loop mode: deliver through the channel Run selects on
 	switch st.Ev {
-	case "ReqCap":
-		return // configuration of the scenario, see phReqCap
+	case "ReqCap", "SendBusy":
+		return // configuration of the scenario, see phReqCap / runScenario
 	case "SetUpdate":
 		gs := r.set(vhMap(st.A, "set"))
 		call = func() { p.gs = gs; p.gst.Set(p.gs) } // the two statements of the setC case of Run
-		send = func() bool { return r.deliver(func(d <-chan time.Time) bool { select { case r.setC <- gs: return true; case <-d: return false } }) }
+		send = func() bool {
+			return r.deliver(func(d <-chan time.Time) bool {
+				select {
+				case r.setC <- gs:
+					return true
+				case <-d:
+					return false
+				}
+			})
+		}
 	case "LocalMessage":
 		m := vhMap(st.A, "m")
 		bd := r.bodyFor(m)
@@ -487,7 +511,16 @@ func (r *phRun) step(st vhStep) {
 			EmitterAddress: vaa.Address(bd.Emitter), Payload: bd.Payload}
 		signStep = true
 		call = func() { p.handleMessage(ctx, k) }
-		send = func() bool { return r.deliver(func(d <-chan time.Time) bool { select { case r.lockC <- k: return true; case <-d: return false } }) }
+		send = func() bool {
+			return r.deliver(func(d <-chan time.Time) bool {
+				select {
+				case r.lockC <- k:
+					return true
+				case <-d:
+					return false
+				}
+			})
+		}
 	case "Inject":
 		m := vhMap(st.A, "v")
 		bd := r.bodyFor(m)
@@ -496,11 +529,29 @@ func (r *phRun) step(st vhStep) {
 			TargetChain: vaa.ChainID(bd.TChain), EmitterAddress: vaa.Address(bd.Emitter), Payload: bd.Payload}
 		signStep = true
 		call = func() { p.handleInjection(ctx, v) }
-		send = func() bool { return r.deliver(func(d <-chan time.Time) bool { select { case r.injectC <- v: return true; case <-d: return false } }) }
+		send = func() bool {
+			return r.deliver(func(d <-chan time.Time) bool {
+				select {
+				case r.injectC <- v:
+					return true
+				case <-d:
+					return false
+				}
+			})
+		}
 	case "Observation":
 		o := r.obs(vhMap(st.A, "o"))
 		call = func() { p.handleObservation(ctx, o) }
-		send = func() bool { return r.deliver(func(d <-chan time.Time) bool { select { case r.obsvC <- o: return true; case <-d: return false } }) }
+		send = func() bool {
+			return r.deliver(func(d <-chan time.Time) bool {
+				select {
+				case r.obsvC <- o:
+					return true
+				case <-d:
+					return false
+				}
+			})
+		}
 	case "Loopback", "Loopback?":
 		if r.loopMode {
 			return // the own observation reaches Run by itself; it is logged with the step that signed
@@ -522,7 +573,16 @@ func (r *phRun) step(st vhStep) {
 	case "InboundVAA":
 		m := r.inbound(vhMap(st.A, "w"))
 		call = func() { p.handleInboundSignedVAAWithQuorum(ctx, m) }
-		send = func() bool { return r.deliver(func(d <-chan time.Time) bool { select { case r.signedInC <- m: return true; case <-d: return false } }) }
+		send = func() bool {
+			return r.deliver(func(d <-chan time.Time) bool {
+				select {
+				case r.signedInC <- m:
+					return true
+				case <-d:
+					return false
+				}
+			})
+		}
 	case "Advance":
 		k := time.Duration(vhInt(st.A, "k", 0)) * time.Second
 		call = func() {
@@ -535,7 +595,21 @@ func (r *phRun) step(st vhStep) {
 		}
 	case "CleanupTick":
 		call = func() { p.handleCleanup(ctx) }
-		send = func() bool { return r.deliver(func(d <-chan time.Time) bool { select { case r.tickC <- time.Now(): return true; case <-d: return false } }) }
+		send = func() bool {
+			return r.deliver(func(d <-chan time.Time) bool {
+				select {
+				case r.tickC <- time.Now():
+					return true
+				case <-d:
+					return false
+				}
+			})
+		}
+		if !r.tickerSet {
+			// Run's tick source cannot be replaced (no *time.Ticker field named cleanup): the pass is made while Run
+			// is parked in its select (the caller synchronised with it); TestVerifProcessorTicker covers the tick source
+			send = func() bool { p.handleCleanup(ctx); return true }
+		}
 	case "Restart":
 		// the process dies and comes back: new Processor, same store; in-flight own observations are gone
 		if r.stopRun != nil {
@@ -565,18 +639,32 @@ func (r *phRun) step(st vhStep) {
 		return
 	}
 	panicked := ""
-	func() {
+	returned := make(chan string, 1)
+	go func() {
+		res := ""
 		completed := false
 		defer func() {
 			// `completed` rather than recover() != nil: under the module's go 1.19 semantics panic(nil) makes
 			// recover() return nil although the call was aborted
 			if x := recover(); x != nil || !completed {
-				panicked = fmt.Sprintf("%v\n%s", x, debug.Stack())
+				res = fmt.Sprintf("%v\n%s", x, debug.Stack())
 			}
+			returned <- res
 		}()
 		call()
 		completed = true
 	}()
+	select {
+	case panicked = <-returned:
+	case <-time.After(phStallLimit):
+		// the handler blocks (e.g. on a full channel nobody else drains): in the node this is the processor loop
+		// standing still for good.  Nothing more can be executed on this processor.
+		buf := make([]byte, 1<<16)
+		buf = buf[:runtime.Stack(buf, true)]
+		panicked = fmt.Sprintf("stall: handler call did not return within %v\n%s", phStallLimit, phStackOf(string(buf), "processor.(*Processor)"))
+		r.aborted = true
+		phStalls++
+	}
 	out := r.drain(signStep)
 	r.w.trace.Emit(r.sc, st.Ev, st.A, r.projState(out, panicked))
 }
@@ -670,6 +758,7 @@ func (r *phRun) stepLoop(st vhStep, send func() bool, signStep bool) {
 		r.w.trace.Emit(r.sc, st.Ev, st.A, r.projState(r.drain(false), r.deadText()))
 		r.loopMode = false // the loop is gone: nothing more can be delivered
 		r.runDead = nil
+		r.aborted = true // (and its channels are unbuffered: calling the handlers directly could block on them)
 		phLoopDeaths++
 		return
 	}
@@ -712,6 +801,124 @@ func (r *phRun) stepLoop(st vhStep, send func() bool, signStep bool) {
 
 var phLoopbackMissing int
 
+// phSetTicker replaces the processor's cleanup ticker (unexported field `cleanup *time.Ticker`) through reflection, so
+// that the harness still builds when the tick source is restructured; false if there is no such field.
+func phSetTicker(p *Processor, t *time.Ticker) bool {
+	f := reflect.ValueOf(p).Elem().FieldByName("cleanup")
+	if !f.IsValid() || f.Type() != reflect.TypeOf(t) {
+		return false
+	}
+	reflect.NewAt(f.Type(), unsafe.Pointer(f.UnsafeAddr())).Elem().Set(reflect.ValueOf(t))
+	return true
+}
+
+// TestVerifProcessorTicker: the fairness assumption of Processor.tla's CleanupTick (it keeps happening whatever else
+// arrives) on the real Run loop and its real 30-s tick source, in real time: an aggregation entry that is due for
+// removal must be gone within ~1.5 tick periods although gossip keeps arriving every 200 ms.
+func TestVerifProcessorTicker(t *testing.T) {
+	if os.Getenv("VERIF_TICKER") == "" {
+		t.Skip("VERIF_TICKER not set")
+	}
+	database, err := db.Open(t.TempDir())
+	if err != nil {
+		t.Fatal(err)
+	}
+	defer database.Close()
+	keys := vhNewKeys(os.Getenv("VERIF_SEED"))
+	rootCtx, rootCancel := context.WithCancel(context.Background())
+	defer rootCancel()
+	finished := make(chan struct{})
+	supervisor.New(rootCtx, zap.NewNop(), func(sctx context.Context) error {
+		defer close(finished)
+		ctx, cancel := context.WithCancel(sctx)
+		defer cancel()
+		obsvC := make(chan *gossipv1.SignedObservation, 64)
+		signedInC := make(chan *gossipv1.SignedVAAWithQuorum, 64)
+		setC := make(chan *common.GuardianSet, 1)
+		sendC := make(chan []byte, 8192)
+		p := NewProcessor(ctx, database, make(chan *common.MessagePublication), setC, sendC, obsvC,
+			make(chan *gossipv1.ObservationRequest, 50), make(chan *vaa.VAA), signedInC,
+			&ecdsasigner.ECDSAPrivateKey{Value: keys.Key("g1")}, common.NewGuardianSetState(nil),
+			reporter.EventListener(zap.NewNop()), nil, phGovChain, phGovEmitter)
+		p.logger = zap.NewNop()
+		// an entry that is due for a retry: the next cleanup pass re-broadcasts its observation ("probe") on sendC
+		old := time.Now().Add(-10 * time.Minute)
+		p.state.vaaSignatures["due"] = &vaaState{firstObserved: old, settled: true, ourMsg: []byte("probe"), txHash: []byte{1},
+			ourVAA: &vaa.VAA{Version: 1, EmitterChain: 2, Payload: []byte{1}}, signatures: map[ethcommon.Address][]byte{}}
+		started := time.Now()
+		runDone := make(chan error, 1)
+		go func() { runDone <- p.Run(ctx) }()
+		setC <- &common.GuardianSet{Index: 0, Keys: []ethcommon.Address{keys.Addr("g1"), keys.Addr("g2"), keys.Addr("g3")}}
+		// steady traffic: junk observations and undecodable signed VAAs, several per second
+		stopTraffic := make(chan struct{})
+		go func() {
+			tk := time.NewTicker(200 * time.Millisecond)
+			defer tk.Stop()
+			for i := 0; ; i++ {
+				select {
+				case <-stopTraffic:
+					return
+				case <-tk.C:
+					if i%2 == 0 {
+						select {
+						case obsvC <- &gossipv1.SignedObservation{Addr: keys.Addr("g2").Bytes(), Hash: make([]byte, 32), Signature: make([]byte, 65), MessageId: "x"}:
+						default:
+						}
+					} else {
+						select {
+						case signedInC <- &gossipv1.SignedVAAWithQuorum{Vaa: nil}:
+						default:
+						}
+					}
+				}
+			}
+		}()
+		limit := 50 * time.Second // 30-s period + slack for a loaded machine
+		gone := false
+		deadline := time.After(limit)
+	wait:
+		for {
+			select {
+			case m := <-sendC:
+				if string(m) == "probe" {
+					gone = true
+					break wait
+				}
+			case <-deadline:
+				break wait
+			}
+		}
+		close(stopTraffic)
+		el := time.Since(started)
+		cancel()
+		<-runDone
+		fmt.Printf("VERIF-TICKER cleanup_ran=%v after=%.1fs limit=%.0fs\n", gone, el.Seconds(), limit.Seconds())
+		supervisor.Signal(sctx, supervisor.SignalDone)
+		return nil
+	})
+	<-finished
+}
+
+// phStallLimit bounds one direct handler call (they take micro- to milliseconds); phStalls counts calls that did not return.
+const phStallLimit = 20 * time.Second
+
+var phStalls int
+
+// phStackOf keeps the goroutine blocks of a full stack dump that mention `what` (first 40 lines each).
+func phStackOf(dump, what string) string {
+	var keep []string
+	for _, g := range strings.Split(dump, "\n\n") {
+		if strings.Contains(g, what) {
+			ls := strings.Split(g, "\n")
+			if len(ls) > 40 {
+				ls = ls[:40]
+			}
+			keep = append(keep, strings.Join(ls, "\n"))
+		}
+	}
+	return strings.Join(keep, "\n\n")
+}
+
 // phLoopDeaths counts Run loops that ended by themselves (panic / return) in this replay; after a few of them the
 // verdict is decided and the remaining histories are not pushed through further dying loops.
 var phLoopDeaths int
@@ -725,7 +932,6 @@ func phReqCap(sc vhScenario) int {
 	}
 	return 8192
 }
-
 
 // start creates the Processor (a fresh one after a Restart step, on the same store) and, in run-loop mode, its Run goroutine.
 func (r *phRun) start() {
@@ -771,7 +977,7 @@ func (r *phRun) start() {
 		}
 		// Run creates its 30-s ticker first; once it is in its loop, put a ticker the harness controls in its place
 		if r.sync() {
-			r.p.cleanup = &time.Ticker{C: r.tickC}
+			r.tickerSet = phSetTicker(r.p, &time.Ticker{C: r.tickC})
 			r.sync()
 		}
 	}
@@ -783,6 +989,33 @@ func (w *phWorld) runScenario(sc vhScenario) {
 		reqC:    make(chan *gossipv1.ObservationRequest, phReqCap(sc)),
 		digests: map[string]string{}, ids: map[string]string{}, idVals: map[string]vaa.VAAID{}, txs: map[string]string{},
 		loop: map[string][]*gossipv1.SignedObservation{}, signed: map[string][]byte{}, bodies: map[string]*vhVAA{}}
+	r.sendOut = r.sendC
+	for _, st := range sc.Steps {
+		if st.Ev == "SendBusy" {
+			// guardiand creates sendC unbuffered; its reader (the p2p loop) is busy publishing most of the time
+			r.sendC = make(chan []byte)
+			stopFwd := make(chan struct{})
+			defer close(stopFwd)
+			go func(in chan []byte, outC chan []byte) {
+				for {
+					r.fwdMu.Lock()
+					select {
+					case m := <-in:
+						outC <- m
+						r.fwdMu.Unlock()
+					default:
+						r.fwdMu.Unlock()
+						select {
+						case <-stopFwd:
+							return
+						case <-time.After(200 * time.Microsecond):
+						}
+					}
+				}
+			}(r.sendC, r.sendOut)
+			break
+		}
+	}
 	store := w.db
 	for _, st := range sc.Steps {
 		if st.Ev == "StoreDown" { // fault scenarios get a store of their own
@@ -798,6 +1031,9 @@ func (w *phWorld) runScenario(sc vhScenario) {
 			}()
 			break
 		}
+	}
+	if phStalls >= 3 {
+		return // the verdict of this replay is decided; every further stall would cost phStallLimit
 	}
 	if os.Getenv("VERIF_RUNLOOP") != "" {
 		if phLoopDeaths >= 5 {
@@ -832,11 +1068,20 @@ func (w *phWorld) runScenario(sc vhScenario) {
 		}
 		r.body(a)
 	}
-	t0 := time.Now()
+	// time spent in steps that completed; the wait that establishes a stall (a step that never returns, a Run loop
+	// that takes no more input) is not part of the scenario's own duration
+	var el time.Duration
 	for _, st := range sc.Steps {
+		if r.aborted {
+			break
+		}
+		tb := time.Now()
 		r.step(st)
+		if !r.aborted {
+			el += time.Since(tb)
+		}
 	}
-	if el := time.Since(t0); el > 900*time.Millisecond {
+	if el > 900*time.Millisecond {
 		// the eps < 1 s assumption of the time abstraction does not hold for this run: mark it
 		w.trace.Emit(sc.ID, "Slow", map[string]interface{}{"ms": el.Milliseconds()}, nil)
 	}
